@@ -185,8 +185,8 @@ def check_entry_points(ctx):
     ctx.check('R7.3', ok, 'view', 'FSTView.cut', f'{len(calls)} kernel calls with cut=True', 'FSTView.cut must pass cut=True', vcut.lineno)
     # as_(): coercion operates on self only when self is root and copy is false
     as_ = ns['as_'][0]
-    txt = norm(ast.unparse(as_.node), 100000)
-    ok = 'self.copy(' in txt or 'self.copy()' in txt
+    ok = any(isinstance(x, ast.Call) and isinstance(x.func, ast.Attribute) and x.func.attr == 'copy' and norm(x.func.value) == 'self'
+             for x in ast.walk(as_.node))
     ctx.check('R7.3', ok, as_.module, as_.qualname, 'as_ coerces self.copy(...) for non-root / copy=True',
               'as_() must work on a copy unless it is asked to consume a root node', as_.lineno)
 
